@@ -1,6 +1,8 @@
 """C01 — Validate decides exactly the draft 2020-12 validity relation."""
 from .. import gen_schema as gs
 from .. import suite, vjudge
+from . import c07
+from ..wire import Obj, Num
 
 ID = "C01"
 N_QUICK = 6000
@@ -21,9 +23,26 @@ def gen(rng, tier, n):
     ops = suite.suite_ops("draft2020-12")
     depth = 3 if tier == "quick" else 4
     while len(ops) < n:
+        r = rng.random()
+        if r < 0.22:
+            o = c07.gen_case(rng, tier)
+            o["meta"]["kw"] = max(2, o["meta"].get("kw", 2))
+            ops.append(o)
+            continue
+        if r < 0.32:
+            # a flat schema of assertions against a batch of scalars drawn from the same pools
+            c = gs.Ctx(rng, "2020", depth=0)
+            doc = Obj()
+            for _ in range(rng.randint(1, 3)):
+                gs.add_keyword(c, doc, rng.choice(["type", "lengths", "bounds", "multipleOf", "enum", "const", "pattern", "type", "lengths"]), 0)
+            pool = gs.NUMS + (gs.HUGE if doc.get("multipleOf") is None else [])
+            insts = [rng.choice(gs.STRS) for _ in range(4)] + [Num(rng.choice(pool)) for _ in range(5)]
+            ops.append({"op": "validate", "args": {"schema": doc, "insts": insts}, "meta": {"kw": gs.count_keywords(doc) + 1}})
+            continue
         c = gs.Ctx(rng, "2020", depth=rng.choice([1, 2, depth]))
         doc = gs.gen_document(c, gs.D2020_URI if rng.random() < 0.3 else None)
-        insts = [gs.gen_instance(rng) for _ in range(6)]
+        huge = not gs.has_key(doc, {"multipleOf"})
+        insts = [gs.gen_instance(rng, huge=huge) for _ in range(6)]
         ops.append({"op": "validate", "args": {"schema": doc, "insts": insts}, "meta": {"kw": gs.count_keywords(doc)}})
     return ops
 
